@@ -12,6 +12,7 @@ From V Require Import Base.Util Base.Strings Base.Result Model.Registry Model.Se
   Model.Renumber Model.Families
   Proofs.GenProofs Proofs.TpMap Proofs.ItemsCanonical Proofs.RenumberPerm Proofs.SortDedup
   Proofs.FidelityGen Proofs.ShapeBool Proofs.GenTotal Proofs.Equivariance.
+From V Require Import Proofs.SynKey.
 Import ListNotations.
 Open Scope string_scope. Open Scope list_scope.
 
@@ -269,10 +270,7 @@ Definition sget (m : list (string * derives)) (k : string) : derives :=
   match smap_get m k with Some d => d | None => derives_empty end.
 
 Lemma syn_type_path_key_ok p k : syn_type_path_key p = Ok k -> k = path_key p.
-Proof.
-  unfold syn_type_path_key. destruct p as [|a p]; [discriminate|].
-  destruct (forallb ident_okb (a :: p)); [|discriminate]. intros H; inversion H; reflexivity.
-Qed.
+Proof. intros H. exact (proj2 (syn_key_ok_eq p k H)). Qed.
 
 Lemma flatten_keys_eq r keys :
   mapM flatten_key r = Ok keys -> keys = map (fun e => (fst e, key_opt (snd e))) r.
